@@ -33,6 +33,11 @@ History / hashing:
 * `fresh_context_independent`      the outcome of a conversion is the same after every history of
                                    earlier (successful or failing) conversions
 * `registry_order_irrelevant`      … and for every insertion (= import) order of the plugin registry
+* `bracketed_restores`             try/finally around the function-body build restores `_IN_FUNCTION_BUILD` for
+                                   every body and every failure point
+* `build_flag_history_independent` hence emitted-as-function / failed is the same after every history
+* `unbracketed_restore_refuted`, `build_flag_unbracketed_refuted`  a restore after a bare `yield` leaks the flag:
+                                   after a conversion that failed inside the body build the same call is inlined
 -/
 import J2O.Lemmas.C14
 set_option linter.unusedSimpArgs false
@@ -391,5 +396,57 @@ example :
   refine ⟨?_, by decide, by decide +kernel, by decide +kernel⟩
   intro k v h
   simp at h
+
+/-! ## The function-build flag -/
+
+/-- **Bracketed save/restore.** Whatever the body does with the flag and wherever it fails, the
+    flag after the build is the flag before it. -/
+theorem bracketed_restores {ε α : Type} (name : String)
+    (body : List String → Except ε α × List String) (flag : List String) :
+    (bracketed name body flag).2 = flag := rfl
+
+example : bracketed "F" (fun f => ((.error "IndexError" : Except String Unit), "G" :: f)) ["H"]
+    = (.error "IndexError", ["H"]) := by decide
+
+theorem buildConv_flag (r : BuildReq) (flag : List String) : (buildConv true r flag).2 = flag := by
+  unfold buildConv
+  split <;> rfl
+
+theorem flagAfter_bracketed (hist : List BuildReq) (flag : List String) :
+    flagAfter true hist flag = flag := by
+  induction hist generalizing flag with
+  | nil => rfl
+  | cons r hist ih =>
+    show flagAfter true hist (buildConv true r flag).2 = flag
+    rw [buildConv_flag, ih]
+
+/-- **History independence of function emission.** With the bracketed build, whether a call of a
+    decorated function becomes an ONNX function is the same after every history of conversions,
+    including conversions that failed inside a function-body build. -/
+theorem build_flag_history_independent (hist : List BuildReq) (r : BuildReq) :
+    (buildConv true r (flagAfter true hist [])).1 = (buildConv true r []).1 := by
+  rw [flagAfter_bracketed]
+
+example : (buildConv true ⟨"SBlock", false⟩ (flagAfter true [⟨"SBlock", false⟩, ⟨"SBlock", true⟩] [])).1
+    = .function := by decide
+
+/-- **Refuted.** Restoring after a bare `yield` does not restore the flag when the body raises. -/
+theorem unbracketed_restore_refuted :
+    ¬ (∀ (name : String) (body : List String → Except String Unit × List String) (flag : List String),
+        (unbracketed name body flag).2 = flag) := by
+  intro h
+  have := h "F" (fun f => (.error "raised", f)) []
+  revert this
+  decide
+
+/-- **Refuted.** With the unbracketed variant the outcome of a request depends on history: after a
+    conversion that failed inside the body build of `SBlock`, the same good request is inlined. -/
+theorem build_flag_unbracketed_refuted :
+    ¬ (∀ (hist : List BuildReq) (r : BuildReq),
+        (buildConv false r (flagAfter false hist [])).1 = (buildConv false r []).1) := by
+  intro h
+  have := h [⟨"SBlock", true⟩] ⟨"SBlock", false⟩
+  revert this
+  decide
 
 end J2O.C14
